@@ -364,6 +364,9 @@ func c14DynamicFailures(r *rand.Rand, base *model.Schema, tag string) []struct{ 
 			}
 		case model.Enum:
 			add("partial-extend", fmt.Sprintf("extend enum %s { FRESH%s %s }", t.Name, strings.ToUpper(tag), t.Values[r.Intn(len(t.Values))].Name))
+			// an existing value repeated WITH a directive (a value object the enum already holds), the document fails at that
+			// block or - should the repeat be taken - at the rule breach after it
+			add("extend-repeats-enum-value-with-directive-then-invalid", fmt.Sprintf("extend enum %s { %s @deprecated(reason: \"zz %s\") }\nunion BadUnionZz%s = Int", t.Name, t.Values[r.Intn(len(t.Values))].Name, tag, tag))
 		case model.Input:
 			add("partial-extend", fmt.Sprintf("extend input %s { fresh%s: Int %s: Int }", t.Name, tag, t.Inputs[r.Intn(len(t.Inputs))].Name))
 		case model.Union:
